@@ -264,7 +264,66 @@ func GenScript(t *rapid.T, o GenOpts) Script {
 		return e
 	})
 	sc.Events = rapid.SliceOfN(evGen, o.MinEvents, o.MaxEvents).Draw(t, "events")
+	if o.Checkpoints && !ctxMode && o.MaxBase >= 20 && o.MinBase == 0 && kit.Uni(t, "cpmode", 6) == 0 {
+		checkpointMode(t, &sc, o)
+	}
 	return sc
+}
+
+// checkpointMode rewrites the script into the shape in which the client's
+// notion of "the next header checkpoint" matters: two checkpoints on the main
+// branch, the client synced (from peer 0, its sync peer) to a height between
+// them, a competing branch that forks there and runs across the height of the
+// second checkpoint with another block, and a script that opens with headers
+// messages which do not extend the tip (known headers, an empty message, a
+// duplicate) before the branch is revealed from the client's tip on - by the
+// sync peer or by another peer. The branch must never be stored at or beyond
+// the checkpoint's height.
+func checkpointMode(t *rapid.T, sc *Script, o GenOpts) {
+	base := rapid.IntRange(14, max(14, o.MaxBase)).Draw(t, "cpbase")
+	cp1 := rapid.IntRange(2, base-8).Draw(t, "cp1")
+	cp2 := rapid.IntRange(cp1+3, base).Draw(t, "cp2")
+	f := rapid.IntRange(cp1, cp2-1).Draw(t, "cpfork")
+	sc.World.Base = base
+	sc.World.Future = rapid.IntRange(1, 10).Draw(t, "cpfut")
+	sc.World.Checkpoints = []int{cp1, cp2}
+	sc.World.Branches = []kit.BranchSpec{{Parent: 0, At: f, Len: cp2 - f + rapid.IntRange(1, 8).Draw(t, "cpblen"), Pace: kit.Pick(t, "cpbpace", []int{0, 1, 2})}}
+	sc.NPeers = rapid.IntRange(1, 3).Draw(t, "cpnpeers")
+	sc.Initial = sc.NPeers
+	sc.Prefill = 0
+	sc.Views, sc.ClaimExtra, sc.InitLies = nil, nil, nil
+	for i := 0; i < sc.NPeers; i++ {
+		sc.Views = append(sc.Views, NodeRef{B: 0, H: f})
+		sc.ClaimExtra = append(sc.ClaimExtra, 0)
+		sc.InitLies = append(sc.InitLies, Event{})
+	}
+	var ev []Event
+	for i, n := 0, rapid.IntRange(0, 3).Draw(t, "cppre"); i < n; i++ {
+		switch kit.Uni(t, "cpprek", 4) {
+		case 0:
+			ev = append(ev, Event{Kind: "advance", Secs: kit.Pick(t, "cpsecs", []int{1, 3, 10})})
+		case 1:
+			// a single known header
+			ev = append(ev, Event{Kind: "headers", Peer: 0, To: NodeRef{B: 0, H: f}, Len: 1})
+		default:
+			// the last few headers again: nothing extends the tip
+			ev = append(ev, Event{Kind: "headers", Peer: rapid.IntRange(0, sc.NPeers-1).Draw(t, "cpkp"), To: NodeRef{B: 0, H: f - rapid.IntRange(0, 2).Draw(t, "cpkback")},
+				Len: rapid.IntRange(1, 6).Draw(t, "cpklen")})
+		}
+	}
+	// the branch, from the client's tip on, across the second checkpoint
+	ev = append(ev, Event{Kind: "headers", Peer: kit.Pick(t, "cpbp", []int{0, 0, sc.NPeers - 1}), To: NodeRef{B: 1, H: 1 << 20}, Len: rapid.IntRange(cp2-f, cp2-f+8).Draw(t, "cpblen2"), FromTip: true})
+	for i, n := 0, rapid.IntRange(0, 4).Draw(t, "cppost"); i < n; i++ {
+		switch kit.Uni(t, "cppostk", 3) {
+		case 0:
+			ev = append(ev, Event{Kind: "advance", Secs: kit.Pick(t, "cpsecs2", []int{1, 10, 40})})
+		case 1:
+			ev = append(ev, Event{Kind: "view", Peer: rapid.IntRange(0, sc.NPeers-1).Draw(t, "cpvp"), To: NodeRef{B: 0, H: base + sc.World.Future}, Announce: true})
+		default:
+			ev = append(ev, Event{Kind: "headers", Peer: rapid.IntRange(0, sc.NPeers-1).Draw(t, "cphp"), To: NodeRef{B: 1, H: 1 << 20}, Len: rapid.IntRange(1, 12).Draw(t, "cphl"), FromTip: rapid.Bool().Draw(t, "cphft")})
+		}
+	}
+	sc.Events = ev
 }
 
 type liePlan struct {
